@@ -123,6 +123,7 @@ type Sim struct {
 	SiteNames func(int32) string
 	// OnStep, when set, runs on the scheduler goroutine before each resume (invariant monitors).
 	OnSwitch func(from, to *G)
+	OnStep   func(step int, name string, site int32)
 }
 
 type TraceEv struct {
@@ -334,6 +335,9 @@ func (s *Sim) Run(main func()) {
 		}
 		s.Stats.Steps++
 		g.steps++
+		if s.OnStep != nil {
+			s.OnStep(s.Stats.Steps, g.Name, g.site)
+		}
 		if s.TraceCap > 0 {
 			if len(s.Trace) >= s.TraceCap {
 				copy(s.Trace, s.Trace[1:])
